@@ -1221,20 +1221,25 @@ def remap_path(
     if ":/" in path:
         scheme = urllib.parse.urlsplit(path).scheme
         if scheme == "file":
+            # A `file://` URI is percent-encoded: decode it to remap the path
+            # and encode the result again, so that a URI remains a URI
             return "file://{}".format(
-                path_processor.join(
-                    new_dir,
-                    *os.path.relpath(urllib.parse.unquote(path[7:]), old_dir).split(
-                        os.path.sep
-                    ),
+                urllib.parse.quote(
+                    path_processor.join(
+                        new_dir,
+                        *os.path.relpath(urllib.parse.unquote(path[7:]), old_dir).split(
+                            os.path.sep
+                        ),
+                    )
                 )
             )
         else:
             return path
     else:
+        # A plain path is not percent-encoded: it must be taken literally
         return path_processor.join(
             new_dir,
-            *os.path.relpath(urllib.parse.unquote(path), old_dir).split(os.path.sep),
+            *os.path.relpath(path, old_dir).split(os.path.sep),
         )
 
 
